@@ -13,4 +13,38 @@ theorem move_typed_refused (t : Tree) (n p : NodeId) (b : Before) (h : t.typed =
     t.moveTo n p b = .error .notImplemented := by
   simp [Tree.moveTo, h]
 
+/-! ### stale references: calls that address a node which is not (or no longer) in the tree
+
+A node that was removed (by `remove`, `remove_children`, `clear`, `filter`, `del`) is not found by `findT`
+any more (`C01.*_gone`).  Every entry point of the model that is handed such an identity — as the node to move, remove or
+re-key, or as the parent to add below — refuses and returns no new state. -/
+
+theorem stale_move_refused (t : Tree) (n p : NodeId) (b : Before) (h : findT n t.root = none) :
+    ∃ e, t.moveTo n p b = .error e := by
+  unfold Tree.moveTo
+  split
+  · exact ⟨_, rfl⟩
+  · simp only [h]
+    exact ⟨_, rfl⟩
+
+theorem stale_move_target_refused (t : Tree) (n p : NodeId) (b : Before) (h : findT p t.root = none) :
+    ∃ e, t.moveTo n p b = .error e := by
+  unfold Tree.moveTo
+  split
+  · exact ⟨_, rfl⟩
+  · simp only [h]
+    split <;> first | exact ⟨_, rfl⟩ | (rename_i h1 h2 h3; cases h3)
+
+theorem stale_remove_refused (t : Tree) (n : NodeId) (keep clones : Bool) (h : findT n t.root = none) :
+    t.remove n keep clones = (t, some .other) := by
+  simp [Tree.remove, h]
+
+theorem stale_setData_refused (t : Tree) (n : NodeId) (a : Option Atom) (d : Option DataId) (wc : Option Bool)
+    (h : findT n t.root = none) : t.setData n a d wc = .error .other := by
+  simp [Tree.setData, h]
+
+theorem stale_parent_refused (t : Tree) (next p : NodeId) (a : Atom) (b : Before) (d : Option DataId) (k : Option String)
+    (h : findT p t.root = none) : t.addData next p a b d k = .error .other := by
+  simp [Tree.addData, h]
+
 end Nutree.C13
